@@ -194,7 +194,23 @@ pub fn run(ctx: &mut Ctx) {
         ctx.begin_case(case);
         let mut rng = Rng::for_case(ctx.seed, "c14-rand", 0, case);
         let zone = zs[rng.below(zs.len())].clone();
-        let s: Vec<u8> = match rng.below(4) {
+        let s: Vec<u8> = match rng.below(5) {
+            4 => {
+                // one label far beyond every limit (counters of one byte wrap at 256), alone or inside a name
+                let l = *rng.pick(&[255usize, 256, 257, 263, 300, 319, 320, 512, 600]) + rng.below(2);
+                let mut v: Vec<u8> = vec![];
+                if rng.chance(1, 3) {
+                    v.extend_from_slice(b"www.");
+                }
+                v.extend((0..l).map(|_| *rng.pick(b"abcxyz019")));
+                if rng.chance(1, 2) {
+                    v.extend_from_slice(b".example");
+                }
+                if rng.chance(1, 3) {
+                    v.push(b'.');
+                }
+                v
+            }
             0 => {
                 let n = text_name(&mut rng, 255);
                 name_to_text(&n, rng.chance(1, 2)).into_bytes()
